@@ -162,8 +162,27 @@ class _Acc:
 
 
 def _safe_check(part: Part, case) -> Result:
-    """Run a check; an exception escaping the *check code* is a harness error."""
-    return part.check(case)
+    """Run a check.  An exception raised INSIDE the package under test by a direct API call (innermost
+    traceback frame in pdb2pqr/) and not handled by the check is a violation of the property the call
+    was made for (bucketed by exception type and raising function); an exception raised by harness
+    code is a harness error (exit 2)."""
+    try:
+        return part.check(case)
+    except Exception as e:  # noqa: BLE001
+        import sys
+        import traceback
+
+        frames = traceback.extract_tb(e.__traceback__)
+        inner = frames[-1] if frames else None
+        fn = (inner.filename if inner else "").replace("\\", "/")
+        if inner is not None and "/pdb2pqr/" in fn and "/vf/" not in fn:
+            prop = getattr(sys.modules.get(part.check.__module__), "ID", "C??")
+            res = Result()
+            res.bad(f"{prop}:{part.name}:exception:{type(e).__name__}:{inner.name}",
+                    f"{type(e).__name__}: {e} raised in {fn.rsplit('/pdb2pqr/', 1)[-1]}:{inner.name} (line {inner.lineno})")
+            res.nontrivial = True
+            return res
+        raise
 
 
 def _run_shard(args):
@@ -241,7 +260,7 @@ def shrink_case(part: Part, tier, seed, n_cases, signature, first_case, budget_s
     def campaign(case):
         if time.time() - t0 > budget_s:
             raise _StopShrink()
-        res = part.check(case)
+        res = _safe_check(part, case)
         if any(sig == signature for sig, _ in res.violations):
             size = len(json.dumps(case, default=str))
             if size <= best["size"]:
@@ -266,7 +285,7 @@ def ddmin_case(part: Part, signature, case, budget_s):
         c = dict(case)
         c[key] = items
         try:
-            return any(s == signature for s, _ in part.check(c).violations)
+            return any(s == signature for s, _ in _safe_check(part, c).violations)
         except Exception:  # noqa: BLE001
             return False
 
@@ -300,7 +319,7 @@ def replay_file(mod, path: Path):
     tier = data.get("tier", "quick")
     parts = {p.name: p for p in mod.parts(tier)}
     part = parts.get(data.get("part")) or next(iter(parts.values()))
-    return part, case, part.check(case)
+    return part, case, _safe_check(part, case)
 
 
 def run_property(mod, tier: str, seed: int, replay: str | None = None) -> int:
@@ -438,7 +457,7 @@ def run_property(mod, tier: str, seed: int, replay: str | None = None) -> int:
             else:
                 if i < 3 and sseed is not None and os.environ.get("VF_NOSHRINK") != "1":
                     case = shrink_case(part, tier, sseed, n, sig, case, shrink_budget)
-                    res = part.check(case)
+                    res = _safe_check(part, case)
                     msgs = [m for s, m in res.violations if s == sig]
                     msg = msgs[0] if msgs else msg
                 safe = "".join(ch if ch.isalnum() or ch in "-_." else "_" for ch in sig)
